@@ -760,7 +760,13 @@ def stream_insts_items(ctx, impl, sig, oracle, n):
             d[rng.choice(["x", "y", "P", "f", "a", "n", "S"])] = mk_term(names)
         inst = Inst(d)
         if rng.random() < 0.45:
-            for k in rng.sample(["a", "b", "c", "T1"], rng.randint(1, 2)):
+            ks = rng.sample(["a", "b", "c", "T1"], rng.randint(1, 2))
+            if d and rng.random() < 0.5:
+                # a schematic TYPE variable named like a schematic variable of the term part ('a and ?a): two
+                # namespaces in the Inst, one text {'a: T, a: t} -- both entries must come back
+                ks[0] = rng.choice(sorted(d))
+                ctx.count("item:inst-type-and-term-variable-share-a-name")
+            for k in ks:
                 inst.tyinst[k] = gen_type(rng, sig, 2)
         r = rng.random()
         if r < 0.04:
@@ -792,8 +798,10 @@ def stream_insts_items(ctx, impl, sig, oracle, n):
             return True, [mk_term(names) for _ in range(rng.randint(1, 3))]
         return False, None
 
-    def mk_item(names, depth):
-        rule = rng.choice(sorted(sigs))
+    inst_rules = sorted(r for r in sigs if sigs[r] == Inst or sigs[r] == Tuple[str, Inst])
+
+    def mk_item(names, depth, want_inst=False):
+        rule = rng.choice(inst_rules) if want_inst and inst_rules else rng.choice(sorted(sigs))
         ok, args = mk_args(sigs[rule], names)
         if not ok:
             ctx.count("item:unsupported-signature:%s" % sig_name(sigs[rule]))
@@ -842,7 +850,7 @@ def stream_insts_items(ctx, impl, sig, oracle, n):
 
     for i in range(n):
         names = G.Names(rng, forbidden)
-        item = mk_item(names, 1)
+        item = mk_item(names, 1, want_inst=(i % 4 == 3))      # every fourth item carries an instantiation
         if item is None:
             continue
         flat = flatten(item)
@@ -1300,9 +1308,9 @@ def run(ctx):
         ctx.log("C07_DEV_NO_LEAN set: Lean obligations NOT checked in this run")
         ctx.broken("dev:no-lean", "C07_DEV_NO_LEAN is set")
     else:
-        proofs_ok = ctx.lean_props(["Holpy.C07.Props", "Holpy.C07.PropsText", "Holpy.C07.PropsTypes", "Holpy.C07.PropsTypesText", "Holpy.C07.PropsBroken", "Holpy.C07.PropsInst"], exes=[EXE])
+        proofs_ok = ctx.lean_props(["Holpy.C07.Props", "Holpy.C07.PropsText", "Holpy.C07.PropsTypes", "Holpy.C07.PropsTypesText", "Holpy.C07.PropsBroken", "Holpy.C07.PropsInst", "Holpy.C07.PropsLits"], exes=[EXE])
         if ctx.tier == "thorough" and proofs_ok:
-            ctx.lean_check_modules(["Holpy.C07.Props", "Holpy.C07.PropsText", "Holpy.C07.PropsTypes", "Holpy.C07.PropsTypesText", "Holpy.C07.PropsBroken", "Holpy.C07.PropsInst"])
+            ctx.lean_check_modules(["Holpy.C07.Props", "Holpy.C07.PropsText", "Holpy.C07.PropsTypes", "Holpy.C07.PropsTypesText", "Holpy.C07.PropsBroken", "Holpy.C07.PropsInst", "Holpy.C07.PropsLits"])
     if ops is None or levels is None:
         # fall back so that the failing-input search can still run
         ops, binders = ops or [], binders or []
@@ -1516,7 +1524,7 @@ MANIFEST = {
             "blank, adds arbitrary whitespace after it and writes a whitespace run before `else` -- what print_ast does for every line width -- lexes to "
             "the same tokens). TYPES: type_parse_print (tokens), type_lex_print (text of print_type -> tokens), type_parse_print_text. SEQUENTS: "
             "thm_parse_print, thm_lex_print (`A1, A2 |- C`, `|- C`, both turnstiles), thm_parse_print_text. INSTANTIATIONS: inst_parse_print (tokens of "
-            "`{}` / `{'a: T, x: t}` as export_proof_item writes them; rule `inst`). All for abstract tables under decidable conditions (TableConsistent, "
+            "`{}` / `{'a: T, x: t}` as export_proof_item writes them; rule `inst`). LIST AND SET LITERALS standing alone: literal_parse_print_partial / literal_parse_print_abstract (tokens of `[a, b]` / `[]`, `{a, b}` / `{}` / `∅` with ANY modelled terms as entries, never bracketed, read back by the rules literal_list / literal_set exactly up to the closing bracket; condition LitOK, lit_ok; tied on every run: tokens of the real printed literal == model printLit, model lexer + parseLit on the real text == entries of the real parse). All for abstract tables under decidable conditions (TableConsistent, "
             "TextOK, TypeTextOK, SeqOK, SeqTextOK, InstOK) that are discharged by `decide` for the regenerated tables on every run. Every model is tied "
             "to the real code on every run: model text == real text (terms, types, sequents), real line-broken texts matched against printTextW by the "
             "driver, model lexer == Lark's real token stream, model parsers == parse_term / parse_type / parse_thm / parse_inst, NameOK checked by the "
@@ -1527,7 +1535,7 @@ MANIFEST = {
             "infer_printed_type annotates and that this suffices for type inference (the annotation SYNTAX is inside the theorems; real annotated prints "
             "are fed to the model parser on every run: skeleton with annotations erased == projection of the term, annotation types == the printer's); "
             "the literal syntaxes other than intervals and set comprehension, by frequency in the library statements (of 3997): set literals `{a, b}` / `{}` (132), "
-            "function update (21), list literals (8), char/string (0) -- the model's rule for `{` reads one term and then `..` term `}`, or, if that term is "
+            "function update (21), list literals (8), char/string (0) -- list and set literals have a token-level theorem only when they stand alone (literal_parse_print_partial: the literal is not a constructor of the term skeleton, so a literal nested inside a term, its bracketing as an operand, and its TEXT level are not proved, and the library figure does not rise); char/string literals need Lark's contextual lexer (`'a'` is "'" LETTER "'" only because CNAME is not acceptable there) -- the model's rule for `{` reads one term and then `..` term `}`, or, if that term is "
             "an identifier, `. ` term `}` / `::` type `. ` term `}`; it rejects set literals (counted as outside the core); it is laxer than the grammar on "
             "texts the printer never writes (`{(x). P}`), and stricter on an interval or comprehension directly as an argument, `f {m..n}`, which Lark "
             "accepts (the printer always brackets it; parse_print_literals is about printed texts); the text level of instantiations and "
